@@ -24,7 +24,15 @@ pub struct RuleDoc {
 #[derive(Clone, Debug, Serialize, Deserialize)]
 pub enum Op {
   Open { doc: usize, version: i64, text: usize },
-  Change { doc: usize, version: i64, text: usize },
+  Change {
+    doc: usize,
+    version: i64,
+    text: usize,
+    /// 0: one content change; 1: two content changes, the text is the last one; 2: none at all
+    /// (the document keeps its text and its version)
+    #[serde(default)]
+    shape: u8,
+  },
   Close { doc: usize },
 }
 
@@ -38,6 +46,9 @@ pub struct Case {
   pub history: Vec<Op>,
   /// send the whole history without waiting for each notification to complete
   pub burst: bool,
+  /// a rule of another language after the rules of the case (rule file and project)
+  #[serde(default)]
+  pub foreign_rule: bool,
 }
 
 #[derive(Clone, Debug)]
@@ -169,10 +180,15 @@ pub fn interpret(ch: &Choice, _st: &mut Stats) -> Option<Case> {
       (1..=7, Some(v)) => {
         // fresh or stale change (never equal to the current version)
         let version = if o.ver % 3 == 0 && v > 1 { (v - 1 - (o.ver as i64 % 2)).max(0) } else { v + 1 + (o.ver as i64 % 4) };
-        if version > v {
+        let shape = match (o.ver, o.kind) {
+          (1 | 5, 1..=4) => 1,
+          (2, 7) => 2,
+          _ => 0,
+        };
+        if version > v && shape != 2 {
           cur.insert(doc, version);
         }
-        history.push(Op::Change { doc, version, text });
+        history.push(Op::Change { doc, version, text, shape });
       }
       (8 | 9, Some(_)) => {
         cur.remove(&doc);
@@ -188,6 +204,8 @@ pub fn interpret(ch: &Choice, _st: &mut Stats) -> Option<Case> {
     texts,
     history,
     burst: ch.burst,
+    // the first enabled rule decides the language --stdin parses in: it must be one of the case
+    foreign_rule: ch.rules.iter().any(|(_, s)| *s < 8),
   })
 }
 
@@ -295,6 +313,18 @@ pub fn check(case: &Case, st: &mut Stats) -> CheckResult {
   for r in &case.rules {
     let y = rule_yaml(&case.lang, r);
     dir.write(&format!("rules/{}.yml", r.id), y.as_bytes());
+    all_rules.push(y);
+  }
+  if case.foreign_rule {
+    // a rule of another language: it applies to no file of this project and to no input of
+    // --stdin, which is parsed in the language of the first enabled rule
+    let (fl, kinds) = if case.lang == "Python" {
+      ("JavaScript", "[{kind: identifier}, {kind: call_expression}, {kind: string}, {kind: program}, {kind: expression_statement}, {kind: number}, {kind: arguments}]")
+    } else {
+      ("Python", "[{kind: identifier}, {kind: call}, {kind: string}, {kind: module}, {kind: expression_statement}, {kind: integer}, {kind: argument_list}]")
+    };
+    let y = format!("id: zz-foreign\nlanguage: {fl}\nseverity: warning\nmessage: foreign\nrule:\n  any: {kinds}\n");
+    dir.write("rules/zz-foreign.yml", y.as_bytes());
     all_rules.push(y);
   }
   dir.write("all-rules.yml", all_rules.join("---\n").as_bytes());
@@ -433,9 +463,11 @@ pub fn check(case: &Case, st: &mut Stats) -> CheckResult {
         );
         expect_publish = Some((doc_uri(*doc), *version));
       }
-      Op::Change { doc, version, text } => {
+      Op::Change { doc, version, text, shape } => {
         if let Some((v, _)) = model.get(doc).cloned() {
-          if *version > v {
+          if *shape == 2 {
+            // no content change: nothing to apply
+          } else if *version > v {
             model.insert(*doc, (*version, *text));
             expect_publish = Some((doc_uri(*doc), *version));
           } else {
@@ -444,13 +476,22 @@ pub fn check(case: &Case, st: &mut Stats) -> CheckResult {
         }
         lsp.notify(
           "textDocument/didChange",
-          json!({"textDocument": {"uri": doc_uri(*doc), "version": version}, "contentChanges": [{"text": case.texts[*text]}]}),
+          json!({"textDocument": {"uri": doc_uri(*doc), "version": version}, "contentChanges": match shape {
+            1 => json!([{"text": case.texts[(*text + 1) % case.texts.len()]}, {"text": case.texts[*text]}]),
+            2 => json!([]),
+            _ => json!([{"text": case.texts[*text]}]),
+          }}),
         );
       }
       Op::Close { doc } => {
         model.remove(doc);
         lsp.notify("textDocument/didClose", json!({"textDocument": {"uri": doc_uri(*doc)}}));
       }
+    }
+    if matches!(op, Op::Change { shape: 2, .. }) {
+      // nothing is applied and nothing is logged for a change without content
+      lsp.settle(Duration::from_millis(20));
+      continue;
     }
     if !case.burst {
       // sequential delivery: wait until this notification has been handled
@@ -481,6 +522,7 @@ pub fn check(case: &Case, st: &mut Stats) -> CheckResult {
   // quiescence: everything sent has been logged, a final request answered
   let (n_open, n_change, n_close) = case.history.iter().fold((1usize, 0usize, 0usize), |a, o| match o {
     Op::Open { .. } => (a.0 + 1, a.1, a.2),
+    Op::Change { shape: 2, .. } => a,
     Op::Change { .. } => (a.0, a.1 + 1, a.2),
     Op::Close { .. } => (a.0, a.1, a.2 + 1),
   });
@@ -539,7 +581,7 @@ pub fn check(case: &Case, st: &mut Stats) -> CheckResult {
 pub fn run(cfg: &RunCfg) -> i32 {
   let mut report = Report::new(
     cfg,
-    "case = (JavaScript/TypeScript/Python/Rust project with 1-4 rules: messages with $VAR / $$$VAR, empty message, notes, every severity incl. off; a text of 1-6 statements incl. nested / multi-line calls and multi-byte arguments; an LSP history of 0-17 open/change/close notifications on 3 documents with fresh and stale versions, delivered sequentially or as a burst). Findings are normalised to multisets of (ruleId, start byte, end byte, message) and compared across scan --json=stream|pretty|compact, scan --stdin -r, --format github, sg test verdicts (and the swapped headings must fail), publishDiagnostics after didOpen, and the last publication per open document after the history. Non-trivial = distinct case with a variable-substituting message among the findings or a stale version arriving after a newer one.",
+    "case = (JavaScript/TypeScript/Python/Rust project with 1-4 rules: messages with $VAR / $$$VAR, empty message, notes, every severity incl. off; a text of 1-6 statements incl. nested / multi-line calls and multi-byte arguments; a rule of another language next to them; an LSP history of 0-17 open/change/close notifications on 3 documents with fresh and stale versions, changes with one, two or no content change, delivered sequentially or as a burst). Findings are normalised to multisets of (ruleId, start byte, end byte, message) and compared across scan --json=stream|pretty|compact, scan --stdin -r, --format github, sg test verdicts (and the swapped headings must fail), publishDiagnostics after didOpen, and the last publication per open document after the history. Non-trivial = distinct case with a variable-substituting message among the findings or a stale version arriving after a newer one.",
   );
   report.assume("LSP ranges are compared in character columns (O-pos), the mapping the server documents");
   report.assume("equal versions are not generated (the property orders versions strictly)");
